@@ -304,14 +304,14 @@ PROPS["C10"] = dict(
     level="other", units=["state", "opt", "cli"], kani=["k_tables_label_%s" % g for g in _GROUPS] + ["k_clone_cell", "k_clone_site"], lemmas=[],
     explanation="Proved on the real text of main.rs (unit cli): analyse_state returns Ok only after writing <outfile>.json = JSON of replica k and <outfile>.svg = SVG of the same replica k and logging that replica's score, "
                 "where k is a best one of the `start_configs` replicas (cli.best; replica i = the code's own stages, generated shape, applied to a copy of the starting state with seed i); zero replicas is an error (cli.empty); "
-                "more replications never score lower (lemma_more_replicas); main passes the requested replica count (main.replicas) and builds the starting state from the requested group, potential and shape arguments in the right order, "
+                "more replications never score lower (cli.monotone: lemma_more_replicas, a counted obligation); main passes the requested replica count (main.replicas) and builds the starting state from the requested group, potential and shape arguments in the right order, "
                 "so the written JSON records the requested group, shape and the group's full number of copies (main.label, cli.label). The eight real BuildOptimiser setters are proved to set exactly their field (set.*). "
                 "Also: the group lookup returns the requested group's own name, its ITA family and its full number of operations (Kani, complete; p1g1 was labelled p1m1 — defect D5, fixed); "
                 "the order on states is the order on their scores and cmp is total when both have scores (Verus, real eq/partial_cmp/cmp of PackedState and of PotentialState); cloning a cell or site yields fresh cells (Kani, all bit patterns), "
                 "and the optimiser's random stream is a function of the given seed only (Verus: seed clause, build.seed).",
     assumptions=_STATE_ASSUMPTIONS + _OPT_ASSUMPTIONS[:2] + _CLI_ASSUMPTIONS,
     undecided=["PackedState::from_group is proved to record the group's family and to hold one site with one operation per table string (WyckoffSite::new's map/collect of Results is a shim: on success one operation per string)",
-               "what a replica is (number of stages and their settings) is read off the code by vx/gen.py; a stage setting that is neither a literal nor the replica index (e.g. one depending on the replica count) is outside the generator's subset: undecided",
+               "what a replica is (number of stages and their settings) is read off the code by vx/gen.py (literal settings; seeds that are sums/differences/products of literals, the replica index and the replica count — a replica depending on the count makes cli.monotone fail); any other setting is outside the generator's subset: undecided",
                "derive(Clone) of PackedState/PotentialState composes the field clones (derive-generated code not verified)"],
 )
 
